@@ -6,6 +6,7 @@ import (
 	"errors"
 	"fmt"
 	"strings"
+	"time"
 
 	"github.com/ozanh/ugo"
 	"github.com/ozanh/ugo/token"
@@ -75,6 +76,10 @@ var kinds = []kind{
 	{"obj-binop", "BAD + 1", false, true, false},
 	{"obj-call", "BAD()", false, true, false},
 	{"obj-string", "string(BAD)", false, true, false},
+	// a panicking object handed to the methods of a container that takes a lock
+	{"syncmap-get-badkey", "SM[BAD]", false, true, false},
+	{"syncmap-set-badkey", "smset()", false, true, false},
+	{"syncmap-iterate-bad", "smiter()", false, true, false},
 	{"recursion-unbounded", "rec()", false, false, true},
 	{"recursion-200-locals", "fat(1)", false, false, true},
 }
@@ -86,7 +91,7 @@ func prelude() string {
 		fmt.Fprintf(&fat, "v%d := a; ", i)
 	}
 	fat.WriteString("return fat(v0) + v199 }; ")
-	return "global (L, PANIC, PANICAFTER, BAD, CB); zero := 0; neg := -1; five := 5; o := 1; two := func(a, b) { return a }; thrower := func() { throw \"t\" }; " +
+	return "global (L, PANIC, PANICAFTER, BAD, CB, SM); smset := func() { SM[BAD] = 1; return 1 }; smiter := func() { for k, v in SM { x := BAD.x }; return 1 }; zero := 0; neg := -1; five := 5; o := 1; two := func(a, b) { return a }; thrower := func() { throw \"t\" }; " +
 		"iterBad := func() { for v in BAD { return v }; return 0 }; var rec; rec = func() { return rec() + 1 }; " + fat.String()
 }
 
@@ -115,8 +120,12 @@ func globals() ugo.Map {
 			return inv.Invoke()
 		}},
 		"BAD": &bad{},
+		"SM":  curSM,
 	}
 }
+
+// curSM is the SyncMap shared by all runs of the case being evaluated (a lock it leaks is met by the later runs).
+var curSM = &ugo.SyncMap{Value: ugo.Map{"k": ugo.Int(1)}}
 
 type context struct {
 	name  string
@@ -182,6 +191,7 @@ var probes = []struct {
 	{"param a; x := a * 2; f := func(y) { return y + x }; return f(1)", []ugo.Object{ugo.Int(20)}, "41"},
 	{"r := []; try { r = append(r, 1); throw \"e\" } catch { r = append(r, 2) } finally { r = append(r, 3) }; return r", nil, "[1, 2, 3]"},
 	{"var s; s = func(n) { if n == 0 { return 0 }; return n + s(n-1) }; a := [1, 2, 3]; for i, v in a { a[i] = v * 2 }; return [s(300), a]", nil, "[45150, [2, 4, 6]]"},
+	{"global SM; SM.w = 5; SM.w2 = SM.w + SM.k; delete(SM, \"w\"); return [SM.w2, len(SM)]", nil, "[6, 2]"},
 }
 
 func run6(c *fw.Ctx) {
@@ -288,20 +298,34 @@ func runOn(vm *ugo.VM, args []ugo.Object) (r result) {
 		log = append(log, fmt.Sprint(a[0]))
 		return ugo.Undefined, nil
 	}}
-	hung := run.Guard(vm, func() {
-		defer func() {
-			if p := recover(); p != nil {
-				r.panic = p
-			}
-		}()
-		r.val, r.err = vm.Run(g, args...)
-	})
-	r.log = log
-	if hung {
-		r.err = fmt.Errorf("hung: %w", r.err)
+	done := make(chan result, 1)
+	go func() {
+		var rr result
+		hung := run.Guard(vm, func() {
+			defer func() {
+				if p := recover(); p != nil {
+					rr.panic = p
+				}
+			}()
+			rr.val, rr.err = vm.Run(g, args...)
+		})
+		if hung {
+			rr.err = fmt.Errorf("hung: %w", rr.err)
+		}
+		done <- rr
+	}()
+	select {
+	case r = <-done:
+		r.log = log
+	case <-time.After(2*run.Timeout + 5*time.Second):
+		// not even the abort of the watchdog ends the run: the goroutine is blocked (e.g. on a lock that an earlier,
+		// recovered panic left locked); it is abandoned
+		r.err = errBlocked
 	}
 	return
 }
+
+var errBlocked = errors.New("blocked: Run does not return and does not react to Abort")
 
 func one(c *fw.Ctx, key, src string, mods map[string]string, k kind, cx context, probeBC []*ugo.Bytecode, nearLimit bool) {
 	if c.Skip(key) {
@@ -321,8 +345,13 @@ func one(c *fw.Ctx, key, src string, mods map[string]string, k kind, cx context,
 		c.Nontrivial()
 	}
 	det := map[string]any{"program_tail": tail(src), "kind": k.name, "context": cx.name}
+	curSM = &ugo.SyncMap{Value: ugo.Map{"k": ugo.Int(1)}}
 	vm := ugo.NewVM(bc).SetRecover(true)
 	r1 := runOn(vm, nil)
+	if r1.err == errBlocked {
+		c.Violation(key, "Run neither returns nor reacts to Abort", det)
+		return
+	}
 	c.AddEval(1)
 	c.Sample(map[string]any{"case": key, "outcome": r1.key()})
 	if r1.panic != nil {
@@ -347,6 +376,10 @@ func one(c *fw.Ctx, key, src string, mods map[string]string, k kind, cx context,
 	c.Outcome(outcomeClass(r1))
 	// same script again on the same VM: same outcome
 	r2 := runOn(vm, nil)
+	if r2.err == errBlocked {
+		c.Violation(key, "second run on the same VM: Run neither returns nor reacts to Abort (a lock was left locked by the recovered failure?)", det)
+		return
+	}
 	if r2.panic != nil {
 		c.Violation(key, fmt.Sprintf("second run on the same VM: a panic escapes: %v", r2.panic), det)
 		return
@@ -359,6 +392,10 @@ func one(c *fw.Ctx, key, src string, mods map[string]string, k kind, cx context,
 	for i, pb := range probeBC {
 		vm.SetBytecode(pb)
 		rp := runOn(vm, probes[i].args)
+		if rp.err == errBlocked {
+			c.Violation(key, fmt.Sprintf("after the failing run probe %d neither returns nor reacts to Abort (a lock was left locked by the recovered failure?)", i), det)
+			return
+		}
 		got := ""
 		if rp.err != nil {
 			got = "ERR " + uv.ErrName(rp.err)
